@@ -175,6 +175,24 @@ func TestC21Registry(t *testing.T) {
 	for _, s := range schemas {
 		classes += len(s.classes)
 	}
+	// calibration of allocFactor: Go size of a minimal object (plus the 16-byte
+	// interface slot, allowing 4x for append growth) per byte of its encoding
+	worst, worstName := 0.0, ""
+	for _, ci := range allCtors {
+		enc, err := encodeObj(minimalValue(ci).Interface().(bin.Object))
+		if err != nil {
+			t.Errorf("minimal value of %s does not encode: %v", ci, err)
+			continue
+		}
+		if r := float64(ci.typ.Size()+4*16) / float64(len(enc)); r > worst {
+			worst, worstName = r, ci.String()
+		}
+	}
+	st.Set("worst_memory_per_wire_byte", worst)
+	t.Logf("worst memory per wire byte of a minimal object: %.1f (%s); allocFactor=%d", worst, worstName, allocFactor)
+	if worst*2 > allocFactor {
+		t.Errorf("allocFactor %d is too tight for %s (%.1f bytes of memory per wire byte)", allocFactor, worstName, worst)
+	}
 	st.Set("constructors", len(allCtors))
 	st.Set("classes", classes)
 	st.Set("flag_bits", cond)
@@ -398,7 +416,7 @@ func envInt(name string, def int) int {
 // memory, grown by append (total allocated <= 4x final). Calibrated in
 // TestC21Registry's log: see allocSlack below.
 const (
-	allocFactor = 256
+	allocFactor = 128
 	allocSlack  = 64 << 10
 )
 
@@ -687,7 +705,7 @@ func TestC21Safety(t *testing.T) {
 // vecCountOffset finds the offset of the count word of vector field f of ci by
 // encoding the same minimal value with one and with two elements: the first
 // differing word is the count.
-func vecCase(ci *ctorInfo, fidx int, elems int) (enc []byte, countOff int, err error) {
+func vecCase(ci *ctorInfo, fidx int, elems int) (enc []byte, countOff, elemLen int, err error) {
 	build := func(n int) ([]byte, error) {
 		p := minimalValue(ci)
 		f := ci.fields[fidx]
@@ -701,22 +719,22 @@ func vecCase(ci *ctorInfo, fidx int, elems int) (enc []byte, countOff int, err e
 	}
 	a, err := build(elems)
 	if err != nil {
-		return nil, 0, err
+		return nil, 0, 0, err
 	}
 	b, err := build(elems + 1)
 	if err != nil {
-		return nil, 0, err
+		return nil, 0, 0, err
 	}
 	for i := 0; i+4 <= len(a); i += 4 {
 		wa, wb := binary.LittleEndian.Uint32(a[i:]), binary.LittleEndian.Uint32(b[i:])
 		if wa != wb {
 			if int(wa) != elems || int(wb) != elems+1 {
-				return nil, 0, fmt.Errorf("first differing word is not the count (%d vs %d)", wa, wb)
+				return nil, 0, 0, fmt.Errorf("first differing word is not the count (%d vs %d)", wa, wb)
 			}
-			return a, i, nil
+			return a, i, len(b) - len(a), nil
 		}
 	}
-	return nil, 0, fmt.Errorf("no differing word")
+	return nil, 0, 0, fmt.Errorf("no differing word")
 }
 
 // minimalOf returns the minimal value of a field type.
@@ -793,20 +811,29 @@ func TestC21Prealloc(t *testing.T) {
 		v := vf[rapid.IntRange(0, len(vf)-1).Draw(t, "vecField")]
 		f := v.ci.fields[v.fidx]
 		elems := rapid.IntRange(0, 3).Draw(t, "elems")
-		enc, off, err := vecCase(v.ci, v.fidx, elems)
+		enc, off, elemLen, err := vecCase(v.ci, v.fidx, elems)
 		if err != nil {
 			t.Fatalf("harness: %s field %s: %v", v.ci, f.name, err)
 		}
-		n := rapid.OneOf(
-			rapid.SampledFrom([]int{1023, 1024, 1025, 2047, 2048, 65535, 1 << 20, 1<<24 + 5, 1<<31 - 1, 1<<31 - 1024, 1<<31 - 1025, 1 << 30}),
-			rapid.IntRange(1024, 1<<31-1),
-			rapid.Map(rapid.IntRange(0, 1<<21-1), func(k int) int { return k*1024 + 1023 }),
-		).Draw(t, "claimed")
+		var n int
+		switch rapid.IntRange(0, 3).Draw(t, "claimClass") {
+		case 0:
+			n = rapid.SampledFrom([]int{1023, 1024, 1025, 2047, 2048, 65535, 1 << 20, 1<<24 + 5, 1<<31 - 1, 1<<31 - 1024, 1<<31 - 1025, 1 << 30}).Draw(t, "claimed")
+		case 1:
+			n = rapid.IntRange(1024, 1<<31-1).Draw(t, "claimed")
+		case 2: // uniform over the whole range
+			n = 1024 + int(binary.LittleEndian.Uint32(pbt.DrawBytes(t, "claimedU", 4))%(1<<31-1024))
+		case 3: // largest remainder: the full allowed preallocation
+			n = int(binary.LittleEndian.Uint32(pbt.DrawBytes(t, "claimedK", 4))%(1<<21))*1024 + 1023
+		}
 		in := append([]byte(nil), enc...)
 		binary.LittleEndian.PutUint32(in[off:], uint32(n))
 		tail := rapid.SampledFrom([]string{"keep", "cut-after-header", "cut-after-elems"}).Draw(t, "tail")
-		if tail == "cut-after-header" {
+		switch tail {
+		case "cut-after-header":
 			in = in[:off+4]
+		case "cut-after-elems":
+			in = in[:off+4+elems*elemLen]
 		}
 		elemSize := uint64(f.typ.Elem().Size())
 		allowed := uint64(n%bin.PreallocateLimit)*elemSize + uint64(allocFactor*len(in)) + preallocSlack
